@@ -7,6 +7,7 @@ import (
 	"go/ast"
 	"go/token"
 	"go/types"
+	"regexp"
 	"strconv"
 
 	"golang.org/x/tools/go/ast/astutil"
@@ -41,8 +42,12 @@ func (n *normalizer) rewriteFunc(pkg *packages.Package, file *ast.File, fd *ast.
 		nres = fd.Type.Results.NumFields()
 	}
 	c.resultsN = []int{nres}
+	c.scalarReplace()
 	fd.Body.List = c.list(fd.Body.List)
 	c.closureCleanup()
+	if c.changed {
+		propagateCopies(fd)
+	}
 	return c.changed
 }
 
@@ -137,6 +142,13 @@ func (c *inlCtx) candidate(e ast.Expr) (*ast.CallExpr, *Func) {
 	f := c.n.newFns[callee]
 	if f == nil || f.Pkg != c.pkg || f.Body == nil || c.n.cyclic[callee] || callee == c.self {
 		return nil, nil
+	}
+	// a pure selector of function values is applied where its result is called (applySelector), never spliced where
+	// the result is bound: that would leave the chosen literals in a variable nobody can see through
+	if f.Decl != nil && f.Decl.Recv == nil && f.Sig().Results().Len() == 1 {
+		if _, isFn := f.Sig().Results().At(0).Type().Underlying().(*types.Signature); isFn && isSelectorBody(f) {
+			return nil, nil
+		}
 	}
 	sig := f.Sig()
 	if sig.TypeParams().Len() > 0 {
@@ -1026,4 +1038,361 @@ func removeStmt(root ast.Node, st ast.Stmt) {
 		}
 		return true
 	})
+}
+
+var normLocalName = regexp.MustCompile(`_i[0-9]+$`)
+
+// propagateCopies removes the copies the splices leave behind: `a := b` where b is a local this pass introduced (its
+// name ends in _iN, which no name of the repository does), b is mentioned nowhere after the statement, and the name a is
+// mentioned nowhere before it in the declaration. Every b becomes a and the statement goes: the code reads as if the
+// helper had computed into the caller's variable, which is what it did before it was extracted. Purely by names and
+// traversal order: the tree is re-type-checked afterwards, and a wrong merge could only fail to compile.
+func propagateCopies(fd *ast.FuncDecl) {
+	for round := 0; round < 50; round++ {
+		// identifiers in traversal order, with the statement that is the candidate copy
+		type occ struct {
+			id *ast.Ident
+		}
+		var order []*ast.Ident
+		var cands []*ast.AssignStmt
+		ast.Inspect(fd, func(n ast.Node) bool {
+			switch x := n.(type) {
+			case *ast.Ident:
+				order = append(order, x)
+			case *ast.AssignStmt:
+				if x.Tok == token.DEFINE && len(x.Lhs) == 1 && len(x.Rhs) == 1 {
+					a, ok1 := x.Lhs[0].(*ast.Ident)
+					b, ok2 := x.Rhs[0].(*ast.Ident)
+					if ok1 && ok2 && a.Name != "_" && normLocalName.MatchString(b.Name) && a.Name != b.Name {
+						cands = append(cands, x)
+					}
+				}
+			case *ast.SelectorExpr:
+				// the selected name is not a variable mention
+				ast.Inspect(x.X, func(m ast.Node) bool {
+					if id, ok := m.(*ast.Ident); ok {
+						order = append(order, id)
+					}
+					return true
+				})
+				return false
+			}
+			return true
+		})
+		done := false
+		for _, st := range cands {
+			a, b := st.Lhs[0].(*ast.Ident), st.Rhs[0].(*ast.Ident)
+			pos := -1
+			for i, id := range order {
+				if id == b {
+					pos = i
+				}
+			}
+			if pos < 0 {
+				continue
+			}
+			ok := true
+			declared := false
+			for i, id := range order {
+				if i < pos && id != a && id.Name == a.Name {
+					ok = false // the caller's name is already in use before the copy
+				}
+				if i > pos && id.Name == b.Name {
+					ok = false // the helper's variable lives on after the copy
+				}
+				if i < pos && id.Name == b.Name {
+					declared = true
+				}
+			}
+			if !ok || !declared || !declaredByDefine(fd, b.Name) || !scopeEncloses(fd, b.Name, st) {
+				continue
+			}
+			for _, id := range order {
+				if id.Name == b.Name {
+					id.Name = a.Name
+				}
+			}
+			removeStmt(fd, st)
+			done = true
+			break
+		}
+		if !done {
+			return
+		}
+	}
+}
+
+// declaredByDefine: the name is introduced by exactly one := or var statement of the declaration (not a parameter, not
+// a range or type-switch variable, not declared twice in sibling blocks).
+func declaredByDefine(fd *ast.FuncDecl, name string) bool {
+	n := 0
+	bad := false
+	ast.Inspect(fd, func(x ast.Node) bool {
+		switch y := x.(type) {
+		case *ast.AssignStmt:
+			if y.Tok == token.DEFINE {
+				for _, l := range y.Lhs {
+					if id, ok := l.(*ast.Ident); ok && id.Name == name {
+						n++
+					}
+				}
+			}
+		case *ast.ValueSpec:
+			for _, id := range y.Names {
+				if id.Name == name {
+					n++
+				}
+			}
+		case *ast.RangeStmt:
+			for _, e := range []ast.Expr{y.Key, y.Value} {
+				if id, ok := e.(*ast.Ident); ok && id.Name == name && y.Tok == token.DEFINE {
+					bad = true
+				}
+			}
+		case *ast.Field:
+			for _, id := range y.Names {
+				if id.Name == name {
+					bad = true
+				}
+			}
+		case *ast.TypeSwitchStmt:
+			if as, ok := y.Assign.(*ast.AssignStmt); ok {
+				for _, l := range as.Lhs {
+					if id, ok := l.(*ast.Ident); ok && id.Name == name {
+						bad = true
+					}
+				}
+			}
+		}
+		return true
+	})
+	return n == 1 && !bad
+}
+
+// scopeEncloses: the statement list that declares the name contains (directly or in nested statements) the copy
+// statement — so that the merged variable is in scope wherever the caller's variable was.
+func scopeEncloses(fd *ast.FuncDecl, name string, st ast.Stmt) bool {
+	found := false
+	var visitList func(list []ast.Stmt)
+	containsStmt := func(n ast.Node) bool {
+		hit := false
+		ast.Inspect(n, func(x ast.Node) bool {
+			if x == ast.Node(st) {
+				hit = true
+			}
+			return !hit
+		})
+		return hit
+	}
+	declares := func(s ast.Stmt) bool {
+		switch y := s.(type) {
+		case *ast.AssignStmt:
+			if y.Tok == token.DEFINE {
+				for _, l := range y.Lhs {
+					if id, ok := l.(*ast.Ident); ok && id.Name == name {
+						return true
+					}
+				}
+			}
+		case *ast.DeclStmt:
+			if gd, ok := y.Decl.(*ast.GenDecl); ok {
+				for _, sp := range gd.Specs {
+					if vs, ok := sp.(*ast.ValueSpec); ok {
+						for _, id := range vs.Names {
+							if id.Name == name {
+								return true
+							}
+						}
+					}
+				}
+			}
+		}
+		return false
+	}
+	visitList = func(list []ast.Stmt) {
+		declaredAt := -1
+		for i, s := range list {
+			if declares(s) {
+				declaredAt = i
+			}
+		}
+		if declaredAt >= 0 {
+			for _, s := range list[declaredAt+1:] {
+				if containsStmt(s) {
+					found = true
+				}
+			}
+		}
+	}
+	ast.Inspect(fd, func(x ast.Node) bool {
+		switch y := x.(type) {
+		case *ast.BlockStmt:
+			visitList(y.List)
+		case *ast.CaseClause:
+			visitList(y.Body)
+		case *ast.CommClause:
+			visitList(y.Body)
+		}
+		return !found
+	})
+	return found
+}
+
+// scalarReplace: a local bound once to a keyed composite literal (or its address) whose every other mention is the read
+// of a field the literal sets to a stable simple expression (a stable local, a constant) is only a bundle of those
+// values: each v.f becomes the value and the binding goes. This undoes "closures turned into methods of a small struct"
+// once the methods have been spliced back.
+func (c *inlCtx) scalarReplace() {
+	type cand struct {
+		v    *types.Var
+		def  *ast.AssignStmt
+		lit  *ast.CompositeLit
+		vals map[string]ast.Expr
+	}
+	var cands []*cand
+	ast.Inspect(c.root, func(n ast.Node) bool {
+		as, ok := n.(*ast.AssignStmt)
+		if !ok || as.Tok != token.DEFINE || len(as.Lhs) != 1 || len(as.Rhs) != 1 {
+			return true
+		}
+		id, ok := as.Lhs[0].(*ast.Ident)
+		if !ok {
+			return true
+		}
+		v, ok := c.info.Defs[id].(*types.Var)
+		if !ok {
+			return true
+		}
+		r := unparen(as.Rhs[0])
+		if u, ok := r.(*ast.UnaryExpr); ok && u.Op == token.AND {
+			r = unparen(u.X)
+		}
+		lit, ok := r.(*ast.CompositeLit)
+		if !ok {
+			return true
+		}
+		if tv, ok := c.info.Types[lit]; !ok {
+			return true
+		} else if _, isStruct := tv.Type.Underlying().(*types.Struct); !isStruct {
+			return true
+		}
+		vals := map[string]ast.Expr{}
+		for _, el := range lit.Elts {
+			kv, ok := el.(*ast.KeyValueExpr)
+			if !ok {
+				return true
+			}
+			k, ok := kv.Key.(*ast.Ident)
+			if !ok {
+				return true
+			}
+			val := unparen(kv.Value)
+			switch y := val.(type) {
+			case *ast.Ident:
+				if _, isVar := c.info.Uses[y].(*types.Var); isVar && !c.stable(y) {
+					return true
+				}
+			case *ast.BasicLit:
+			default:
+				if tv, ok := c.info.Types[val]; !ok || tv.Value == nil {
+					return true
+				}
+			}
+			vals[k.Name] = val
+		}
+		cands = append(cands, &cand{v: v, def: as, lit: lit, vals: vals})
+		return true
+	})
+	for _, cd := range cands {
+		ok := true
+		var reads []*ast.SelectorExpr
+		var stack []ast.Node
+		ast.Inspect(c.root, func(n ast.Node) bool {
+			if n == nil {
+				stack = stack[:len(stack)-1]
+				return true
+			}
+			stack = append(stack, n)
+			id, isId := n.(*ast.Ident)
+			if !isId || c.info.Uses[id] != types.Object(cd.v) {
+				return true
+			}
+			if len(stack) < 2 {
+				ok = false
+				return true
+			}
+			se, isSel := stack[len(stack)-2].(*ast.SelectorExpr)
+			if !isSel || se.X != ast.Expr(id) {
+				ok = false
+				return true
+			}
+			sel := c.info.Selections[se]
+			if sel == nil || sel.Kind() != types.FieldVal || len(sel.Index()) != 1 {
+				ok = false
+				return true
+			}
+			if _, has := cd.vals[se.Sel.Name]; !has {
+				ok = false
+				return true
+			}
+			// a read: not assigned, not incremented, address not taken
+			if len(stack) >= 3 {
+				switch p := stack[len(stack)-3].(type) {
+				case *ast.AssignStmt:
+					for _, l := range p.Lhs {
+						if l == ast.Expr(se) {
+							ok = false
+						}
+					}
+				case *ast.IncDecStmt:
+					ok = false
+				case *ast.UnaryExpr:
+					if p.Op == token.AND {
+						ok = false
+					}
+				}
+			}
+			reads = append(reads, se)
+			return true
+		})
+		if !ok || len(reads) == 0 {
+			continue
+		}
+		// the values must mean the same where they are read (not shadowed)
+		for _, se := range reads {
+			val := cd.vals[se.Sel.Name]
+			if id, isId := val.(*ast.Ident); isId {
+				if o := c.info.Uses[id]; o != nil && !c.resolvesSameLocal(id.Name, o, se.Pos()) {
+					ok = false
+				}
+			}
+		}
+		if !ok {
+			continue
+		}
+		repl := map[*ast.SelectorExpr]bool{}
+		for _, se := range reads {
+			repl[se] = true
+		}
+		astutil.Apply(c.root, func(cur *astutil.Cursor) bool {
+			if se, isSel := cur.Node().(*ast.SelectorExpr); isSel && repl[se] {
+				cur.Replace(cloneAST(cd.vals[se.Sel.Name], c.n.back).(ast.Expr))
+				return false
+			}
+			return true
+		}, nil)
+		removeStmt(c.root, cd.def)
+		c.changed = true
+		c.n.lg.Inlined = append(c.n.lg.Inlined, fmt.Sprintf("%s: local %s, a bundle of stable values, replaced by them in %s (scalar replacement)", c.n.w.Pos(cd.def.Pos()), cd.v.Name(), c.rootName))
+	}
+}
+
+// resolvesSameLocal: the name denotes the object at the position (for locals and package-level names alike).
+func (c *inlCtx) resolvesSameLocal(name string, obj types.Object, pos token.Pos) bool {
+	inner := c.pkg.Types.Scope().Innermost(pos)
+	if inner == nil {
+		return false
+	}
+	_, got := inner.LookupParent(name, pos)
+	return got == obj
 }
